@@ -135,4 +135,11 @@ def postForms : FormTable :=
 def FormTable.unbatchedOk (t : FormTable) : Bool :=
   t.all fun (cls, wrapped) => !batchedModules.contains cls || wrapped
 
+/-- writes to instance / class / module state outside `__init__`, as (class, method, attribute, how).  The model is a
+pure function of the sample (and of the externals): it is adequate for call histories on one transform object only
+if no transform class keeps anything between calls — the translated table must be empty. -/
+abbrev StateWrites := List (String × String × String × String)
+
+def StateWrites.none (t : StateWrites) : Bool := t.isEmpty
+
 end DirectVerif.Pipeline
